@@ -290,10 +290,12 @@ func (es *EventSystem) consumeEvents() {
 				continue
 			}
 
+			// Keep the read lock until the event has been handed over: the event loop closes the topic channel
+			// while holding the write lock, so the channel can not be closed between the lookup and the send.
 			es.indexMux.RLock()
 			ch, ok := es.topicChans[ev.Query]
-			es.indexMux.RUnlock()
 			if !ok {
+				es.indexMux.RUnlock()
 				es.logger.Debug("channel for subscription not found", "topic", ev.Query)
 				es.logger.Debug("list of available channels", "channels", es.eventBus.Topics())
 				continue
@@ -307,6 +309,7 @@ func (es *EventSystem) consumeEvents() {
 				es.logger.Debug("dropped event during lagging subscription", "topic", ev.Query)
 			case ch <- ev:
 			}
+			es.indexMux.RUnlock()
 		}
 
 		time.Sleep(time.Second)
